@@ -18,6 +18,7 @@ DECIDED = ("Writer (Display for Board, Debug for CastleRights) and reader (parse
            "R6 clocks: written half-move then full-move, read in the same order into the same fields, at most 4 digits fit u16; R7 Board::standard() is the standard position.")
 DECIDED = DECIDED + ' R8 premise re-run here: the derived state (checkers / pinned) of a parsed board is recomputed exactly, on every way out of update_pin_info (C03.R4, R6).'
 DECIDED = DECIDED + ' R90 premises re-run here: C04 C04.R2, C04.R3; C02 C02.R2.'
+DECIDED = DECIDED + ' R9 the reader takes at least as many clock digits as the writer can emit for the clock type (known finding D9 on the pinned tree: 4 < 5).'
 NOT_DECIDED = "round trip on arbitrary boards as strings (needs the loops' semantics on actual positions); equality of hash/derived state after a round trip (C04/C03 clauses)"
 EXPLANATION = ("K4 with the generic-iteration abstraction for the writer's loops and region analysis (between the parser's whitespace calls) for the reader; "
                "formatted output is modelled as ordered emit events through core::fmt.")
@@ -618,6 +619,31 @@ def r6(ctx):
     hi = max(bounds) if bounds else None
     ctx.ob("digits fit u16", hi is not None and 10 ** hi - 1 <= 65535, f"parse_number reads up to {hi} digits: {10 ** hi - 1 if hi else '?'} does not fit the u16 clock", site=pn.get("def_span"),
            sample={"max_digits": hi})
+
+
+@rule("C05.R9", "every clock value a board can hold is readable: the reader takes at least as many digits as the writer can emit")
+def r9(ctx):
+    """The writer prints the two u16 clocks in full (up to 65535, five digits); the builder accepts any u16 and make-move saturates at 65535. A
+    reader that stops after N digits cannot read back a clock of more than N digits: the text of a valid board is rejected (trailing bytes)."""
+    P = ctx.P
+    PN = MG + "fen::parse_number"
+    pn = P.body(PN)
+    bounds = set()
+    for blk in pn["blocks"]:
+        for s in blk["s"]:
+            r = s.get("r", {})
+            if r.get("k") == "agg" and r.get("adt") == "core::ops::range::Range":
+                for o in r["ops"]:
+                    if o.get("k") == "const" and "int" in o.get("c", {}):
+                        bounds.add(int(o["c"]["int"]))
+    hi = max(bounds) if bounds else None
+    fields = {f["name"]: f["ty"] for f in P.adt(MG + "Board")["variants"][0]["fields"]}
+    need = max(len(str({"u8": 255, "u16": 65535, "u32": 2 ** 32 - 1}.get(fields.get(n_), 65535))) for n_ in ("half_move_clock", "full_move_clock"))
+    if hi is None:
+        raise AnchorError("parse_number: no digit-count bound found")
+    ctx.ob(f"clock digits {hi}<{need}" if hi < need else "clock digits", hi >= need,
+           f"the clocks are {fields.get('full_move_clock')} values written in full (up to {need} digits) but parse_number reads at most {hi}: a board whose clock has more digits prints a text that does not parse back",
+           site=pn.get("def_span"), sample={"reader_digits": hi, "writer_digits": need})
 
 
 @rule("C05.R7", "Board::standard() is the standard position")
